@@ -46,9 +46,81 @@ def stateless_events(ctx, ty, dtype, n):
         ev.append({"op": "scale", "ty": ty, "x": x, "out": L.dyvec(S[i])})
     ident = getattr(pp, "identity_" + ty)(2, dtype=dtype)
     ev.append({"op": "identity", "ty": ty, "x": L.dyvec(ident.tensor()[0]), "out": L.dyvec(ident.tensor()[1])})
+    # ---- operands that went through copy / serialisation: still the same elements of the same group
+    import copy
+    import io
+    import pickle
+
+    def through(how, Z_):
+        if how == "deepcopy":
+            return copy.deepcopy(Z_)
+        if how == "pickle":
+            return pickle.loads(pickle.dumps(Z_))
+        if how == "save_load":
+            buf = io.BytesIO()
+            torch.save(Z_, buf)
+            buf.seek(0)
+            return torch.load(buf, weights_only=False)
+        if how == "parameter":
+            return pp.Parameter(Z_.clone())
+        return Z_.clone().detach()
+    for k, how in enumerate(("deepcopy", "pickle", "save_load", "parameter", "clone")):
+        i = k % n
+        x, y = L.dyvec(X.tensor()[i]), L.dyvec(Y.tensor()[i])
+        for side in ("right", "left", "both"):
+            try:
+                Xc = through(how, X[i]) if side in ("left", "both") else X[i]
+                Yc = through(how, Y[i]) if side in ("right", "both") else Y[i]
+                with torch.no_grad():
+                    out = {"mul": L.dyvec((Xc @ Yc).tensor()), "inv": L.dyvec(Xc.Inv().tensor()),
+                           "act3": L.dyvec(Xc.Act(p3[i]))}
+            except Exception as ex:
+                ev.append({"op": "raise", "ty": ty, "what": "%s operand through %s: %r" % (side, how, ex)[:200]})
+                continue
+            ev.append({"op": "mul", "ty": ty, "x": x, "y": y, "out": out["mul"], "via": how + "/" + side})
+            if side != "right":
+                ev.append({"op": "inv", "ty": ty, "x": x, "out": out["inv"], "via": how})
+                ev.append({"op": "act3", "ty": ty, "x": x, "p": L.dyvec(p3[i]), "out": out["act3"], "via": how})
     if not (isinstance(Z, pp.LieTensor) and Z.ltype == X.ltype and Z.dtype == dtype and
             isinstance(Xi, pp.LieTensor) and Xi.ltype == X.ltype and R.ltype == pp.SO3_type):
         raise MachineryError("unexpected result types from %s ops" % ty)
+    return ev
+
+
+def extreme_scale_events(ctx, ty, dtype):
+    """Scales far below / above the machine epsilon are still positive scales: Inv stays a two-sided inverse and the action
+    of Inv(X) undoes the action of X (numeric: the dyadic codec of the exact events does not reach 2^+-60).
+    Judged by LieNumTrace (chk inv_extreme: error in eps units)."""
+    import torch
+    pp = pypose()
+    rng = ctx.rng
+    eps = float(torch.finfo(dtype).eps)
+    dt = "f64" if dtype == torch.float64 else "f32"
+    ev = []
+    for k in (-60, -40, -30, 30, 40, 60):
+        q4 = list(rng.choice(L.U24))
+        t = [float(rng.randint(-3, 3)) for _ in range(3)]
+        row = q4 + [2.0 ** k] if ty == "RxSO3" else t + q4 + [2.0 ** k]
+        X = L.mk(ty, [row], dtype)
+        e = {"chk": "inv_extreme", "ty": ty, "dt": dt, "err": 10 ** 9, "finite": False, "allow": 0,
+             "cell": {"scale_exp": k}, "x": row, "a": []}
+        try:
+            Xi = X.Inv()
+            I4 = torch.eye(4, dtype=dtype)
+            p = torch.tensor([[1.0, -2.0, 3.0]], dtype=dtype)
+            back = Xi.Act(X.Act(p))
+            # the translation of Inv X is -(1/s) R^T t: cancellations of that size are inherent (condition of the problem),
+            # so matrix / action errors are relative to the largest translation involved; the scale product is not
+            ti = float(Xi.translation().abs().max()) if ty == "Sim3" else 0.0
+            sc = max(1.0, max(abs(v) for v in t), ti)
+            vals = [((X @ Xi).matrix()[0] - I4) / sc, ((Xi @ X).matrix()[0] - I4) / sc, (back - p) / 3.0 / sc,
+                    (Xi.scale().reshape(-1) * X.scale().reshape(-1) - 1).reshape(1, 1)]
+            e["finite"] = all(bool(torch.isfinite(v).all()) for v in vals)
+            if e["finite"]:
+                e["err"] = int(min(10 ** 9, max(float(v.abs().max()) for v in vals) / eps + 0.999))
+        except Exception as ex:
+            e["cell"]["raised"] = repr(ex)[:120]
+        ev.append(e)
     return ev
 
 
@@ -284,6 +356,15 @@ def run(ctx):
             # steps around the small-angle switch-overs (eps^(1/4), eps^(1/6)): a biased series there drifts linearly
             mid = 1e-3 if dtype == torch.float64 else 2e-2
             traces.append(drift_events(ctx, ty, dtype, 2000 if q else 10000, 250, step=mid))
+    ntr = [{"cfg": {"ty": ty, "kind": "extreme_scale"}, "ev": extreme_scale_events(ctx, ty, dtype)}
+           for ty in ("RxSO3", "Sim3") for dtype in (torch.float64, torch.float32)]
+    for tr, v in zip(ntr, ctx.validate("LieNumTrace", "LieNumTrace.cfg", ntr, "num")):
+        if v != "ok":
+            clause, at = v.split("@")
+            e = tr["ev"][int(at) - 1]
+            ctx.violation("extreme_scale/%s/%s" % (tr["cfg"]["ty"], clause),
+                          "%s %s with scale 2^%d: Inv is not a two-sided inverse (error %s eps)" % (e["dt"], e["ty"], e["cell"]["scale_exp"], e["err"]),
+                          {"trace": tr, "spec": "LieNumTrace"})
     ctx.sample(traces[0]["ev"][0])
     ctx.sample([t for t in traces if t["cfg"]["kind"] == "history"][0]["ev"][0])
     ctx.sample([t for t in traces if t["cfg"]["kind"] == "drift"][0]["ev"][-1])
